@@ -155,6 +155,40 @@ func runC16Struct(c *Ctx, wl *walkLayers) {
 		c.Check(len(rep) == 0, "C16-REPLACE", "(*valid.VStruct).validate", "rule-string", pos, fmt.Sprintf("%d call paths", n), uniqJoin(rep, 3))
 		c.Check(len(scope) == 0, "C16-SCOPE", "(*valid.VStruct).validate", "rule-set", pos, fmt.Sprintf("%d call paths", n), uniqJoin(scope, 3))
 	}
+	// the per-call rule table is filled by SetRule only: a walker that files a rule set under another
+	// key (say the unscoped set under the outermost object's type) changes which objects it applies to
+	// — every nested object of that type inherits it
+	{
+		var bad []string
+		nUpd := 0
+		for _, fn := range p.Funcs {
+			if fn.Pkg != p.Pkg("valid") {
+				continue
+			}
+			for _, b := range fn.Blocks {
+				for _, ins := range b.Instrs {
+					mu, ok := ins.(*ssa.MapUpdate)
+					if !ok {
+						continue
+					}
+					ld, ok := mu.Map.(*ssa.UnOp)
+					if !ok {
+						continue
+					}
+					fa, ok := ld.X.(*ssa.FieldAddr)
+					if !ok || fieldAddrName(fa) != "ruleMap" {
+						continue
+					}
+					nUpd++
+					c.Sites++
+					if fn.Name() != "SetRule" {
+						bad = append(bad, "the per-call rule table is written in "+fnName(fn)+" at "+p.Pos(mu.Pos())+" (only SetRule registers rule sets): a set filed under another key applies to other objects than the caller named")
+					}
+				}
+			}
+		}
+		c.Check(len(bad) == 0 && nUpd >= 1, "C16-SCOPE", "(*valid.VStruct).ruleMap", "filled-by-SetRule-only", token.NoPos, fmt.Sprintf("%d update(s) of the per-call rule table, all in SetRule", nUpd), uniqJoin(append(bad, fmt.Sprintf("%d updates found", nUpd)), 3))
+	}
 	// SetRule keys
 	if fn := p.Method("valid", "VStruct", "SetRule"); fn != nil {
 		c.Funcs[fnName(fn)] = true
